@@ -29,7 +29,15 @@ struct Case {
     garbage: [u32; 6],
     response_ms: u32,
     sirm_len: usize,
+    /// ops: `e` enable_streaming, `d` disable_streaming, `s` sbrm(), `p` StreamParams::from_control,
+    /// `l` start + stop of the real receive loop on the case's one StreamHandle (reports
+    /// `StreamHandle::params()` and the transfers of the first frame), `M` the device changes
+    /// registers on its own (next entry of `pokes`)
     ops: Vec<(char, Option<(usize, FaultKind)>)>,
+    pokes: Vec<(u64, Vec<u8>)>,
+    /// required payload/leader/trailer (16 bytes at SIRM+8) the device publishes only when the
+    /// stream gets disabled (U3V: the required sizes never change while the stream is enabled)
+    frozen: Option<Vec<u8>>,
 }
 
 fn fault_to_json(f: &Option<(usize, FaultKind)>) -> Value {
@@ -67,6 +75,8 @@ impl Case {
             "req_payload": self.req_payload.to_string(), "req_leader": self.req_leader, "req_trailer": self.req_trailer,
             "garbage": self.garbage.to_vec(), "response_ms": self.response_ms, "sirm_len": self.sirm_len,
             "ops": self.ops.iter().map(|(c, f)| json!({"op": c.to_string(), "fault": fault_to_json(f)})).collect::<Vec<_>>(),
+            "pokes": self.pokes.iter().map(|(a, d)| json!({"addr": a.to_string(), "data": hex(d)})).collect::<Vec<_>>(),
+            "frozen": self.frozen.as_ref().map(|d| hex(d)),
         })
     }
     fn from_json(v: &Value) -> Case {
@@ -83,6 +93,9 @@ impl Case {
             garbage, response_ms: u32_("response_ms"), sirm_len: v["sirm_len"].as_u64().unwrap() as usize,
             ops: v["ops"].as_array().unwrap().iter()
                 .map(|o| (o["op"].as_str().unwrap().chars().next().unwrap(), fault_from_json(&o["fault"]))).collect(),
+            pokes: v["pokes"].as_array().map(|a| a.iter()
+                .map(|p| (p["addr"].as_str().unwrap().parse().unwrap(), unhex(p["data"].as_str().unwrap()))).collect()).unwrap_or_default(),
+            frozen: v["frozen"].as_str().map(unhex),
         }
     }
     fn regions(&self) -> Vec<Region> {
@@ -107,7 +120,13 @@ impl Case {
         for r in self.regions() {
             s.push_str(&format!(" {} {}", r.base, hex(&r.data)));
         }
+        let mut pokes = self.pokes.iter();
         for (c, f) in &self.ops {
+            if *c == 'M' {
+                let (a, d) = pokes.next().expect("poke data");
+                s.push_str(&format!(" M:{a}:{}", hex(d)));
+                continue;
+            }
             match f {
                 None => s.push_str(&format!(" {c}")),
                 Some((k, kind)) => s.push_str(&format!(" {c}@{k}:{}", kind.spec())),
@@ -131,19 +150,71 @@ struct OpObs {
     after: Option<Vec<u8>>,
     params: Option<[u64; 7]>,
     max_payload: Option<Result<u64, ()>>,
+    /// lengths of the stream transfers the receive loop submitted for its first frame (`l`)
+    frame: Option<Vec<usize>>,
 }
 
 fn run_impl(case: &Case) -> Result<(String, Vec<OpObs>), String> {
     let usb = FakeUsb::new(case.regions());
-    let mut h = open_handle(&usb)?;
+    let (mut h, mut strm) = open_both(&usb)?;
+    if let Some(d) = &case.frozen {
+        usb.publish_on_disable(case.sirm_addr + SI_CONTROL, case.sirm_addr + 8, d.clone());
+    }
     let mut toks = vec![];
     let mut obs = vec![];
+    let mut pokes = case.pokes.iter();
     for (c, f) in &case.ops {
+        if *c == 'M' {
+            let (a, d) = pokes.next().expect("poke data");
+            let ok = usb.poke(*a, d);
+            toks.push(format!("M={}", if ok { "ok" } else { "unmapped" }));
+            continue;
+        }
         let before = usb.peek(case.sirm_addr, SIRM_LEN);
         usb.arm(f.clone());
         let mut params = None;
         let mut max_payload = None;
+        let mut frame = None;
         let (res, is_panic) = match c {
+            'l' => {
+                use cameleon::PayloadStream;
+                usb.submitted(true);
+                let (sender, _receiver) = cameleon::payload::channel(3, 3);
+                match catch(|| strm.start_streaming_loop(sender, &mut h)) {
+                    Ok(Ok(())) => {
+                        let sp = strm.params().clone();
+                        // transfers of one frame according to the loop's own parameters
+                        let n = 2 + sp.payload_count + (sp.payload_final1_size != 0) as usize + (sp.payload_final2_size != 0) as usize;
+                        let deadline = std::time::Instant::now() + std::time::Duration::from_secs(10);
+                        while usb.submitted(false).len() < n && std::time::Instant::now() < deadline {
+                            std::thread::sleep(std::time::Duration::from_micros(200));
+                        }
+                        let stopped = catch(|| strm.stop_streaming_loop());
+                        let sub: Vec<usize> = usb.submitted(true).iter().take(n).map(|x| x.1).collect();
+                        let mx = catch(|| sp.maximum_payload_size() as u64);
+                        let p = [
+                            sp.leader_size as u64, sp.trailer_size as u64, sp.payload_size as u64, sp.payload_count as u64,
+                            sp.payload_final1_size as u64, sp.payload_final2_size as u64, sp.timeout.as_millis() as u64,
+                        ];
+                        params = Some(p);
+                        max_payload = Some(mx);
+                        let mut hsh = FNV_INIT;
+                        for l in &sub {
+                            hsh = fnv_u64(hsh, *l as u64);
+                        }
+                        let fr = format!("{}:{:016x}", sub.len(), hsh);
+                        frame = Some(sub);
+                        let mxs = match mx { Ok(n) => n.to_string(), Err(()) => "panic".into() };
+                        if !matches!(stopped, Ok(Ok(()))) {
+                            ("err:StopLoop".to_string(), false)
+                        } else {
+                            (format!("ok:{},{},{},{},{},{},{},max={},frame={}", p[0], p[1], p[2], p[3], p[4], p[5], p[6], mxs, fr), false)
+                        }
+                    }
+                    Ok(Err(_)) => ("err:Stream".to_string(), false),
+                    Err(()) => ("panic".to_string(), true),
+                }
+            }
             'e' | 'd' | 's' => {
                 let r = catch(|| match *c {
                     'e' => h.enable_streaming(),
@@ -174,7 +245,7 @@ fn run_impl(case: &Case) -> Result<(String, Vec<OpObs>), String> {
         };
         let log = usb.take_log();
         toks.push(format!("{c}={res}{}", show_log(&log)));
-        obs.push(OpObs { kind: *c, res, log, before, after: usb.peek(case.sirm_addr, SIRM_LEN), params, max_payload });
+        obs.push(OpObs { kind: *c, res, log, before, after: usb.peek(case.sirm_addr, SIRM_LEN), params, max_payload, frame });
         if is_panic {
             break;
         }
@@ -240,6 +311,7 @@ fn oracle_inner(case: &Case, obs: &[OpObs], found: &mut Vec<(Value, String)>, co
         }
         found.push((sig, what));
     };
+    let mut starts = 0usize; // starts of the receive loop so far
     let mut programmed: Option<[u64; 6]> = None; // leader, trailer, size, count, f1, f2 of the last successful enable
     let mut required_payload = 0u64;
     for (i, o) in obs.iter().enumerate() {
@@ -259,10 +331,33 @@ fn oracle_inner(case: &Case, obs: &[OpObs], found: &mut Vec<(Value, String)>, co
         if any_failed && !o.res.starts_with("err") {
             viol("fault_reported", json!({"op": o.kind.to_string()}), format!("op #{i}: a device access failed but the call returned {}", o.res));
         }
-        if o.kind == 'p' {
+        if o.kind == 'l' {
+            // the receive loop must work with what the LAST enable_streaming programmed, on every
+            // start of the loop on the same handle
+            if let (Some(fr), Some(prog)) = (&o.frame, programmed) {
+                let [ml, mt, ts, cnt, f1, f2] = prog;
+                let mut want = vec![ml as usize];
+                want.extend(std::iter::repeat(ts as usize).take(cnt as usize));
+                if f1 != 0 {
+                    want.push(f1 as usize);
+                }
+                if f2 != 0 {
+                    want.push(f2 as usize);
+                }
+                want.push(mt as usize);
+                if fr != &want {
+                    viol("params_roundtrip", json!({"part": "receive-loop-transfers", "loop_start": starts}),
+                        format!("start #{starts} of the receive loop submitted {} transfers {:?}.. for its first frame, programmed were {} transfers {:?}..",
+                            fr.len(), &fr[..fr.len().min(4)], want.len(), &want[..want.len().min(4)]));
+                }
+            }
+            starts += 1;
+        }
+        if o.kind == 'p' || o.kind == 'l' {
             if let (Some(p), Some(prog)) = (o.params, programmed) {
                 if p[..6] != prog[..] {
-                    viol("params_roundtrip", json!({}), format!("from_control read {:?}, programmed {:?}", &p[..6], prog));
+                    viol("params_roundtrip", json!({"op": o.kind.to_string()}), format!("{} {:?}, programmed {:?}",
+                        if o.kind == 'l' { "the receive loop runs with" } else { "from_control read" }, &p[..6], prog));
                 }
                 match o.max_payload {
                     Some(Ok(m)) if m >= required_payload => {}
@@ -312,13 +407,13 @@ fn oracle_inner(case: &Case, obs: &[OpObs], found: &mut Vec<(Value, String)>, co
             if after[4] & 1 == 1 && !lost_enable && (!was_enabled || disable_applied) {
                 viol("failure_atomic_enable", json!({"part": "image"}), "call failed but the enable bit is set in the device".into());
             }
-            if !any_failed && in_scope(case, before) {
+            if !any_failed && in_scope(case, before) && case.frozen.is_none() {
                 viol("spurious_error", json!({}), format!("no device failure, inputs in scope, but the call returned {}", o.res));
             }
             continue;
         }
         // successful call: the coverage demands apply to every input for which the call succeeds
-        let scoped = in_scope(case, before);
+        let scoped = in_scope(case, after);
         if !scoped {
             counts.push("enable-ok:outside-theorem-scope");
         }
@@ -327,9 +422,11 @@ fn oracle_inner(case: &Case, obs: &[OpObs], found: &mut Vec<(Value, String)>, co
         }
         let e = le32(&before[0..]) >> 24;
         let a = 1u64 << e;
-        let req_leader = le32(&before[0x10..]) as u64;
-        let req_trailer = le32(&before[0x14..]) as u64;
-        let req_payload = u64::from_le_bytes(before[8..16].try_into().unwrap());
+        // what the device requires once the call is over (a device may publish new requirements
+        // when the call disables a still-enabled stream)
+        let req_leader = le32(&after[0x10..]) as u64;
+        let req_trailer = le32(&after[0x14..]) as u64;
+        let req_payload = u64::from_le_bytes(after[8..16].try_into().unwrap());
         let ml = le32(&after[0x18..]) as u64;
         let ts = le32(&after[0x1C..]) as u64;
         let cnt = le32(&after[0x20..]) as u64;
@@ -510,6 +607,8 @@ fn gen_case(rng: &mut Rng) -> Case {
         response_ms: 1 + rng.below(2000) as u32,
         sirm_len,
         ops,
+        pokes: vec![],
+        frozen: None,
     }
 }
 
@@ -635,6 +734,62 @@ fn boundary_limits(rep: &mut Report, rng: &mut Rng) {
     }
 }
 
+/// Multi-step histories on one open pair of handles: enable_streaming, start the real receive
+/// loop (`StreamHandle::start_streaming_loop`), stop it, the device reports other required sizes
+/// (ROI / chunk mode changed; sometimes another alignment), enable again, start the loop again ...
+/// Demanded for EVERY start: `StreamHandle::params()` and the transfers the loop submits equal
+/// what the preceding enable_streaming programmed.
+fn sessions(rep: &mut Report, rng: &mut Rng, thorough: bool) {
+    let n = if thorough { 500 } else { 80 };
+    for _ in 0..n {
+        let (ack, en) = (*rng.pick(&[64u32, 1024]), rng.bool());
+        let mut c = plain_case(rng, 1024, ack, en);
+        c.garbage = [0; 6];
+        let rounds = 2 + rng.below(2) as usize;
+        let mut ops = vec![];
+        let mut pokes = vec![];
+        for k in 0..rounds {
+            let payload: u64 = match rng.below(6) {
+                0 => 640 * 480,
+                1 => 1920 * 1080 * 2 + 1000,
+                2 => 65536 * (1 + rng.below(20)),
+                3 => 1 + rng.below(5000),
+                4 => 0,
+                _ => rng.below(3_000_000),
+            };
+            let leader = *rng.pick(&[0u32, 52, 53, 1024, 65536, 70_001]);
+            let trailer = *rng.pick(&[0u32, 32, 64, 260, 1024, 66_000]);
+            if k == 0 {
+                c.req_payload = payload;
+                c.req_leader = leader;
+                c.req_trailer = trailer;
+            } else {
+                let mut d = payload.to_le_bytes().to_vec();
+                d.extend_from_slice(&leader.to_le_bytes());
+                d.extend_from_slice(&trailer.to_le_bytes());
+                ops.push(('M', None));
+                pokes.push((c.sirm_addr + 8, d));
+                if rng.chance(1, 3) {
+                    // the alignment changes as well
+                    ops.push(('M', None));
+                    pokes.push((c.sirm_addr, ((rng.below(13) as u32) << 24).to_le_bytes().to_vec()));
+                }
+            }
+            ops.push(('e', None));
+            ops.push(('l', None));
+            if rng.chance(1, 4) {
+                ops.push(('p', None));
+            }
+            if rng.chance(3, 4) {
+                ops.push(('d', None)); // otherwise the next enable finds the stream enabled
+            }
+        }
+        c.ops = ops;
+        c.pokes = pokes;
+        run_case(rep, &c, "acquisition-sessions");
+    }
+}
+
 fn gen_fault(rng: &mut Rng, k: usize) -> (usize, FaultKind) {
     let kind = match rng.below(4) {
         0 => FaultKind::Status(STATUS_ACCESS_DENIED),
@@ -649,14 +804,15 @@ fn main() {
     let args = parse_args();
     let mut rep = Report::new(
         "C15",
-        "one case = one handle lifetime over a scripted device: (alignment exponent, required leader/payload/trailer, initial SI_CONTROL, register garbage, map addresses, negotiated limits) x op sequence (enable / disable / from_control) x optional failure of the k-th device access; non-trivial = at least one enable_streaming returned Ok; distinct by the full request line",
+        "one case = one handle lifetime over a scripted device: (alignment exponent, required leader/payload/trailer, initial SI_CONTROL, register garbage, map addresses, negotiated limits) x op sequence (enable / disable / sbrm / from_control / start+stop of the real receive loop on one StreamHandle / device-side register changes) x optional failure of the k-th device access; non-trivial = at least one enable_streaming returned Ok; distinct by the full request line",
     );
     let mut rng = Rng::new(args.seed);
 
     if let Some(path) = &args.replay {
         let v: Value = serde_json::from_str(&std::fs::read_to_string(path).unwrap()).unwrap();
         let case = Case::from_json(&v["replay"]);
-        run_case(&mut rep, &case, "replay");
+        let compare = case.frozen.is_none() && case.max_cmd >= 24 && case.max_ack >= 20;
+        run_case_opt(&mut rep, &case, "replay", compare);
         rep.write(&args);
         return;
     }
@@ -706,6 +862,29 @@ fn main() {
 
     // 1b. negotiated limits at the boundary of "one register access = one command"
     boundary_limits(&mut rep, &mut rng);
+
+    // 1c. acquisition sessions: ONE control handle and ONE stream handle stay open while the
+    // device is reconfigured between two or three acquisitions
+    sessions(&mut rep, &mut rng, args.thorough());
+
+    // 1d. a device that keeps the required sizes frozen while the stream is enabled and publishes
+    // the sizes of the new configuration when the host disables the stream (USB3 Vision: "never
+    // changed while stream is enabled"): the call has to cover what the device requires after it.
+    // Outside the Lean device model (its registers do not change on their own): oracle only.
+    for i in 0..(if args.thorough() { 300 } else { 60 }) {
+        let mut c = plain_case(&mut rng, 1024, 1024, true);
+        c.req_payload = 640 * 480;
+        c.req_leader = 52;
+        c.req_trailer = 32;
+        let payload: u64 = 1920 * 1080 * 2 + rng.below(100_000);
+        let (leader, trailer) = (*rng.pick(&[52u32, 1024, 4096]), *rng.pick(&[32u32, 260, 5000]));
+        let mut d = payload.to_le_bytes().to_vec();
+        d.extend_from_slice(&leader.to_le_bytes());
+        d.extend_from_slice(&trailer.to_le_bytes());
+        c.frozen = Some(d);
+        c.ops = if i % 2 == 0 { vec![('e', None), ('p', None)] } else { vec![('e', None), ('l', None), ('d', None)] };
+        run_case_opt(&mut rep, &c, "requirements-published-on-disable", false);
+    }
 
     // 2. random cases incl. larger exponents, unmapped / overflowing maps, op sequences
     let rounds = if args.thorough() { 60_000 } else { 6_000 };
